@@ -48,9 +48,15 @@ PROGRAMS = [
 ]
 
 
+# long subjects of unusual make-up: anything done to the subject outside the engine call (normalisation, case folding, splitting,
+# escaping) is not covered by the engine timeout and must stay cheap too
+ODD_SUBJECTS = [('comb60000', '\u0315\u0300' * 30000), ('accents100000', '\u00e9' * 100000), ('blank100000', ' ' * 100000),
+                ('nl50000', 'a\n' * 50000), ('astral30000', '\U0001F600' * 30000), ('casefold50000', '\u00df\u0130' * 25000)]
+
+
 def subjects(n):
     s = [('a30b', 'a' * 30 + 'b'), ('a1000', 'a' * 1000), ('a100000', 'a' * 100000), ('manymatches', ('a' * 12 + '! ') * 300),
-         ('ab50000', 'ab' * 50000)]
+         ('ab50000', 'ab' * 50000)] + ODD_SUBJECTS
     return s[:n]
 
 
@@ -171,7 +177,7 @@ def _child(conn, jobs, mem):
     import regex as real_regex
     rec = Recorder()
     api.functions.regex = RegexProxy(real_regex, rec)
-    subj = dict(subjects(9))
+    subj = dict(subjects(99))
     for pattern, sname, flags, fname in jobs:
         s = subj[sname]
         out = {'compile_s': None, 'call_s': None, 'calls': [], 'result': None}
@@ -215,6 +221,19 @@ def _child(conn, jobs, mem):
             out['result'] = type(e).__name__
         out['call_s'] = time.perf_counter() - t
         out['calls'] = [(n, (to if isinstance(to, (int, float)) or to is None else str(to))) for n, to, _ in rec.calls]
+        if out['call_s'] > 0.25 * bound_for(pattern, s):
+            # slow: time the same call again, now that the engine has the compiled pattern cached - compilation is judged by the
+            # __compile__ job of the pattern (its own signature), and is what a loaded machine stretches over the bound first
+            out['first_call_s'] = out['call_s']
+            t = time.perf_counter()
+            try:
+                if flags:
+                    f(s, pattern, flags)
+                else:
+                    f(s, pattern)
+            except Exception:  # noqa
+                pass
+            out['call_s'] = time.perf_counter() - t
         conn.send(out)
 
 
@@ -269,7 +288,7 @@ def features(pattern):
 
 def judge(res, job, summ, recheck):
     pattern, sname, flags, fname = job
-    subj = dict(subjects(9))[sname]
+    subj = dict(subjects(99))[sname]
     bnd = bound_for(pattern, subj)
     res.count('calls')
     w = {'pattern': pattern, 'subject': sname, 'flags': flags, 'function': fname}
@@ -342,6 +361,11 @@ def work(task):
         for fl in ODD_FLAGS:
             for fn in FUNCS:
                 jobs.append(('a+b', subs[0], fl, fn))
+        for sname, _ in ODD_SUBJECTS:
+            for pat in ('x', 'a+b', r'\w+\d', r'(\s*)*$'):
+                for fl in ('', 'ims'):
+                    for fn in FUNCS:
+                        jobs.append((pat, sname, fl, fn))
     summs = supervised(jobs, honour_abort=True)
     for i, (job, summ) in enumerate(zip(jobs, summs)):
         n_before = len(recheck)
@@ -392,7 +416,7 @@ def main(tier, seed, t0):
     for c, summ2 in zip(cands, second):
         job, phase = c[0], c[1]
         pattern, sname, flags, fname = job
-        subj = dict(subjects(9))[sname]
+        subj = dict(subjects(99))[sname]
         bnd = bound_for(pattern, subj)
 
         def over(summ):
